@@ -68,10 +68,43 @@ struct Prog {
 		}
 	};
 	struct B : FSM::State {
-		void exitGuard(typename FSM::GuardControl& c) { c.changeTo(2); }
-		void enter(typename FSM::State::PlanControl& c) { (void) c.currentTransition(); }
+		void exitGuard(typename FSM::GuardControl& c) { c.changeTo(2); (void) c.template isActive<A>(); (void) c.request(); }
+		void enter(typename FSM::State::PlanControl& c) {
+			(void) c.currentTransition(); (void) c.template stateId<C>(); (void) c._();
+#ifdef VF_PLANS
+			{ auto p = c.plan(); for (auto it = p.begin(); it; ++it) if (it->origin == 2) it.remove(); }
+			{ const typename FSM::State::PlanControl& cc = c; auto cp = cc.plan(); (void) static_cast<bool>(cp); }
+#endif
+#ifdef VF_HISTORY
+			(void) c.previousTransitions();
+#endif
+		}
+		void reenter(typename FSM::State::PlanControl&) {}
+		void preUpdate(typename FSM::FullControl& c) { c.template changeTo<C>(); }
+		void postUpdate(typename FSM::FullControl&) {}
+		void preReact(const Ev&, typename FSM::FullControl&) {}
+		void postReact(const Ev&, typename FSM::FullControl& c) {
+#ifdef VF_PLANS
+			c.template succeed<A>(); c.template fail<C>(); (void) c.plan().template change<A>(1);
+#endif
+			(void) c;
+		}
+		void exit(typename FSM::State::PlanControl&) {}
 	};
-	struct C : FSM::State {};
+	// a state with two injected bases: with >= 2 injections the state itself must define every callback
+	struct Inj1 : FSM::State { void enter(typename FSM::State::PlanControl&) {} void update(typename FSM::FullControl&) {} };
+	struct Inj2 : FSM::State { void exit(typename FSM::State::PlanControl&) {} void entryGuard(typename FSM::GuardControl&) {} };
+	struct C : FSM::template StateT<Inj1, Inj2> {
+		using GuardControl = typename FSM::GuardControl; using FullControl = typename FSM::FullControl;
+		using ConstControl = typename FSM::ConstControl; using PlanControl = typename FSM::State::PlanControl;
+		void entryGuard(GuardControl&) {} void enter(PlanControl&) {} void reenter(PlanControl&) {}
+		void preUpdate(FullControl&) {} void update(FullControl&) {} void postUpdate(FullControl&) {}
+		template <typename E> void preReact(const E&, FullControl&) {}
+		template <typename E> void react(const E&, FullControl&) {}
+		template <typename E> void postReact(const E&, FullControl&) {}
+		template <typename E> void query(E&, ConstControl&) const {}
+		void exitGuard(GuardControl&) {} void exit(PlanControl&) {}
+	};
 
 	template <typename TInstance>
 	static int drive(TInstance& m) {
@@ -89,6 +122,8 @@ struct Prog {
 		r += static_cast<int>(FSM::template stateId<B>());
 		(void) m.template access<A>();
 		(void) m.context();
+		{ const TInstance& cm = m; (void) cm.template access<C>(); (void) cm.context(); r += cm.template isActive<B>() ? 1 : 0; }
+		{ TInstance moved{static_cast<TInstance&&>(m)}; r += moved.activeStateId(); }
 #ifdef VF_PLANS
 		(void) m.plan().change(0, 1);
 		(void) m.plan().template change<A, B>();
@@ -114,10 +149,14 @@ struct Prog {
 		int r = 0;
 		m.changeWith(1, p);
 		m.template changeWith<B>(p);
+		{ struct Local { static void f(typename Prog::FSM::FullControl& c, const TPay& q) { c.changeWith(1, q); c.template changeWith<B>(q); } }; (void) &Local::f; }
 		m.immediateChangeWith(2, p);
 		m.template immediateChangeWith<A>(p);
 #ifdef VF_PLANS
 		(void) m.plan().changeWith(0, 1, p);
+		(void) m.plan().template changeWith<A>(1, p);
+		(void) m.plan().template changeWith<A, B>(p);
+		for (auto it = m.plan().begin(); it; ++it) r += it->payload() ? 1 : 0;
 #endif
 #ifdef VF_HISTORY
 		r += m.previousTransition().payload() ? 1 : 0;
